@@ -111,7 +111,75 @@ def _impl_paths(name, fname, params):
     return res
 
 
-def _check_case(corr, name, fname, params, tabs):
+def _expanded_function_paths(rng, name, fname, params):
+    """the gate function's own placement form f(..., N=, target(s)=, control(s)=): -> [(label, matrix, qubits, N)]"""
+    import inspect
+    import warnings
+    from qutip_qip.operations import gates as G
+    f = getattr(G, fname)
+    sig = inspect.signature(f).parameters
+    if "N" not in sig:
+        return []
+    nq = Q.N_QUBITS[name]
+    out = []
+    for extra in (0, 1, 2):
+        N = nq + extra
+        qs = rng.sample(range(N), nq)
+        kw = dict(N=N)
+        nc = sum(1 for k in ("control",) if k in sig) + (2 if "controls" in sig else 0)
+        if "controls" in sig:
+            kw["controls"] = qs[:2]
+        if "control" in sig:
+            kw["control"] = qs[0]
+        rest = qs[nc:]
+        if "targets" in sig:
+            kw["targets"] = list(rest)
+        elif "target" in sig:
+            kw["target"] = rest[0]
+        args = [list(params)] if fname == "qasmu_gate" else list(params)
+        with warnings.catch_warnings():
+            warnings.simplefilter("ignore")
+            M = f(*args, **kw).full()
+        out.append((f"function(N={N},{ {k: v for k, v in kw.items() if k != 'N'} })", M, qs, N))
+    return out
+
+
+_POLLUTED = [False]
+
+
+def _pollute():
+    """legal uses of OTHER circuit objects that must not change what a fresh circuit does with a library name:
+    circuits carrying user gates named like library gates, merged into plain circuits with add_circuit"""
+    from qutip import Qobj
+    from qutip_qip.circuit import QubitCircuit
+    from qutip_qip.operations import GATE_CLASS_MAP
+    ug = {}
+    for nm in GATE_CLASS_MAP:
+        nq = Q.N_QUBITS.get(nm)
+        if nq is None:
+            continue
+        d = 2 ** nq
+        wrong = np.diag(np.exp(1j * (0.3 + np.arange(d))))
+        if Q.N_PARAMS.get(nm, 0):
+            ug[nm] = (lambda w, q: (lambda a: Qobj(w, dims=[[2] * q, [2] * q])))(wrong, nq)
+        else:
+            ug[nm] = (lambda w, q: (lambda: Qobj(w, dims=[[2] * q, [2] * q])))(wrong, nq)
+    block = QubitCircuit(3, user_gates=ug)
+    block.add_gate("T", targets=[0])
+    block.add_gate("X", targets=[1])
+    block.compute_unitary()
+    plain = QubitCircuit(3)
+    plain.add_gate("SNOT", targets=[0])
+    plain.add_circuit(block)
+    plain.compute_unitary()
+    other = QubitCircuit(3)
+    other.user_gates["S"] = ug["S"]
+    other.add_gate("S", targets=[2])
+    other.propagators(expand=False)
+    _POLLUTED[0] = True
+
+
+def _check_case(corr, name, fname, params, tabs, rng=None):
     fn, disp, cls, cmap = tabs
     inp = dict(gate=name, function=fname, params=params)
     try:
@@ -120,6 +188,17 @@ def _check_case(corr, name, fname, params, tabs):
         corr.oracle_fail(inp, repr(e), "matrix", f"{name}: a definition path raised {type(e).__name__}")
         return
     doc = Q.np_gate(name, params)
+    if fname is not None and rng is not None:
+        try:
+            for label, M, qs, N in _expanded_function_paths(rng, name, fname, params):
+                want = Q.embed(doc, list(qs), N)
+                if M.shape != want.shape or not np.allclose(M, want, atol=1e-9):
+                    corr.oracle_fail(dict(inp, path=label), np.round(M, 6).tolist(), np.round(want, 6).tolist(),
+                                     f"{name} via {label} differs from the documented matrix embedded on qubits {list(qs)}")
+        except Exception as e:
+            corr.oracle_fail(dict(inp, path="function(N=...)"), repr(e), "matrix", f"{name}: the placement form of the gate function raised {type(e).__name__}")
+    if _POLLUTED[0]:
+        inp = dict(inp, after_user_gate_history=True)
     for path, M in impl.items():
         if M.shape != doc.shape or not np.allclose(M, doc, atol=1e-9):
             corr.oracle_fail(dict(inp, path=path), np.round(M, 6).tolist(), np.round(doc, 6).tolist(),
@@ -264,7 +343,8 @@ Eval vm_compute in map one [""" + "; ".join(f'({nc}%nat, {cv}%nat, "{nm}"%string
 
 
 def correspond(ctx):
-    corr = Corr(rule="every library gate name x every definition path (function, name dispatch, class, circuit) x parameter samples "
+    corr = Corr(rule="every library gate name x every definition path (function, function with N/target placement, name dispatch, class, circuit, circuit after other circuits used user gates "
+                     "named like library gates) x parameter samples "
                      "(pi/16 grid, boundary 0,+-pi,2pi,1e-9,>2pi, random); non-trivial = parametrised or multi-qubit gate; "
                      "plus controlled_gate with 1-3 controls, all control values, random placements")
     tabs = _tables()
@@ -283,7 +363,21 @@ def correspond(ctx):
             corr.count((name, tuple(params)), nontrivial=(npar > 0 or Q.N_QUBITS[name] > 1),
                        sample=dict(gate=name, params=params) if npar and ctx.rng.random() < 0.01 else None)
             corr.tally(name)
-            _check_case(corr, name, fname, params, tabs[:4])
+            _check_case(corr, name, fname, params, tabs[:4], rng=ctx.rng)
+    # the circuit path must not depend on what OTHER circuits did before (user gates named like library gates)
+    _pollute()
+    try:
+        for name in names:
+            if name not in Q.N_QUBITS:
+                continue
+            fname = inv_fn.get(name) or inv_fn.get({"H": "SNOT", "CX": "CNOT", "iSWAP": "ISWAP", "SWAPALPHA": "SWAPalpha"}.get(name, ""), None)
+            npar = Q.N_PARAMS.get(name, 0)
+            for params in _samples(ctx, npar)[:3]:
+                corr.count((name, tuple(params), "after-history"), nontrivial=True)
+                corr.tally("after-history")
+                _check_case(corr, name, fname, params, tabs[:4], rng=ctx.rng)
+    finally:
+        _POLLUTED[0] = False
     # global phase
     from qutip_qip.operations import globalphase
     for th in [0.0, math.pi / 16, -2.5, 7.0]:
@@ -317,7 +411,15 @@ def search(ctx, broken):
         if name == "IDLE":
             continue
         for params in _samples(T(), Q.N_PARAMS.get(name, 0)):
-            _check_case(c, name, inv_fn.get(name), params, tabs[:4])
+            _check_case(c, name, inv_fn.get(name), params, tabs[:4], rng=ctx.rng)
+    _pollute()
+    try:
+        for name in sorted(Q.N_QUBITS):
+            if name != "IDLE":
+                for params in _samples(T(), Q.N_PARAMS.get(name, 0))[:3]:
+                    _check_case(c, name, inv_fn.get(name), params, tabs[:4], rng=ctx.rng)
+    finally:
+        _POLLUTED[0] = False
     _controlled_cases(T(), c)
     _controlled_class_cases(T(), c)
     return c.oracle_failures
@@ -328,7 +430,13 @@ def replay(ctx, rec):
     c = Corr()
     if inp.get("kind") == "controlled_gate":
         return False
-    _check_case(c, inp["gate"], inp.get("function"), inp.get("params", []), ({}, {}, {}, {}))
+    import random
+    if inp.get("after_user_gate_history"):
+        _pollute()
+    try:
+        _check_case(c, inp["gate"], inp.get("function"), inp.get("params", []), ({}, {}, {}, {}), rng=random.Random(0))
+    finally:
+        _POLLUTED[0] = False
     return bool(c.oracle_failures)
 
 
